@@ -368,11 +368,20 @@ class ResourceInterrupted(ResourceConstraint):
                 if is_interruptible:
                     # add assertions for task duration based on the total count of overlapped periods
                     total_overlap = z3.Sum(*overlaps)
-                    conds.append(task._duration >= task.min_duration + total_overlap)
+                    duration_conds = [
+                        task._duration >= task.min_duration + total_overlap
+                    ]
                     if task.max_duration is not None:
-                        conds.append(
+                        duration_conds.append(
                             task._duration <= task.max_duration + total_overlap
                         )
+                    if task.optional:
+                        # the duration of a task that is not scheduled is not constrained
+                        conds.append(
+                            z3.Implies(task._scheduled, z3.And(*duration_conds))
+                        )
+                    else:
+                        conds.extend(duration_conds)
 
             # TODO: remove AND, as the solver does that anyways?
             self.set_z3_assertions(z3.And(*conds))
